@@ -269,10 +269,27 @@ def check_size(ps, c, rng, quick):
             if not np.allclose(other, base * fac ** (-5. / 6), rtol=1e-12, atol=1e-14 * np.abs(base).max()) or not np.array_equal(again, base):
                 bad.append(("ft_phase_screen:r0-scaling", dict(N=N, factor=fac, seed=seed)))
                 break
+        # parameters handed over as numpy scalars of lower precision are the numbers they hold
+        for ty in (np.float32, np.float16):
+            q = [float(ty(v)) for v in (0.2, 0.1, 20.0, 0.01)]
+            want = np.asarray(ps.ft_phase_screen(q[0], N, q[1], q[2], q[3], seed=seed))
+            for pos in range(4):
+                args = list(q)
+                args[pos] = ty(args[pos])
+                got = np.asarray(ps.ft_phase_screen(args[0], N, args[1], args[2], args[3], seed=seed))
+                if got.shape != want.shape or not np.allclose(got, want, rtol=0, atol=1e-11 * np.abs(want).max()):
+                    bad.append(("ft_phase_screen:parameter-as-%s" % np.dtype(ty).name, dict(N=N, position=pos, err=float(np.abs(got - want).max() / np.abs(want).max()))))
+                    break
         bsh = np.asarray(ps.ft_sh_phase_screen(0.2, N, 0.1, 20.0, 0.01, seed=seed))
         osh = np.asarray(ps.ft_sh_phase_screen(0.4, N, 0.1, 20.0, 0.01, seed=seed))
         if not np.allclose(osh, bsh * 2.0 ** (-5. / 6), rtol=1e-11, atol=1e-13 * np.abs(bsh).max()):
             bad.append(("ft_sh_phase_screen:r0-scaling", dict(N=N, seed=seed)))
+    # seed=None: every call is a NEW draw of the ensemble (three screens, pairwise different; with the same linear map the
+    # probability of a coincidence is zero)
+    for fn_ in (ps.ft_phase_screen, ps.ft_sh_phase_screen):
+        scr = [np.asarray(fn_(0.2, N, 0.1, 20.0, 0.01), float) for _ in range(3)]
+        if any(np.array_equal(scr[i], scr[j]) for i in range(3) for j in range(i + 1, 3)):
+            bad.append(("%s:unseeded-calls-repeat-the-same-draws" % fn_.__name__, dict(N=N)))
     return bad, ncmp
 
 
